@@ -268,6 +268,7 @@ class Ids:
     def __init__(self) -> None:
         self.err: dict[str, int] = {}
         self.data: dict[str, int] = {}
+        self.ref_keys: set[str] = set()      # errors emitted by XMLSchemaBase._validate_references
 
     def e(self, key: str) -> int:
         return self.err.setdefault(key, len(self.err))
@@ -293,6 +294,8 @@ def build_script(log: list, ids: Ids, canon: Callable[[Any], Any]) -> tuple[list
             else:
                 # the reference check finds nothing in a skip run (its input is filled by non-skip decoding only)
                 steps.append(['d', ids.e(err_key(err)), caller != '_validate_references'])
+                if caller == '_validate_references':
+                    ids.ref_keys.add(err_key(err))
                 last_direct = err
         else:
             item = ev[1]
@@ -389,10 +392,11 @@ def outcome(fn: Callable[[], Any]) -> Any:
         return {'exc': type(e).__name__, 'msg': str(e)[:200]}
 
 
-def entry_points(schema: Any, canon: Callable[[Any], Any]) -> dict[str, Callable[[Any], Any]]:
+def entry_points(schema: Any, canon: Callable[[Any], Any], path: Optional[str] = None) -> dict[str, Callable[[Any], Any]]:
     import xmlschema
     from xmlschema import XMLSchemaValidationError
     cls = type(schema)
+    kw: dict[str, Any] = {'path': path} if path else {}
 
     def gen_items(g: Any) -> Any:
         items: list = []
@@ -411,18 +415,18 @@ def entry_points(schema: Any, canon: Callable[[Any], Any]) -> dict[str, Callable
         return {'ok': {'data': canon(res)}}
 
     eps: dict[str, Callable[[Any], Any]] = {
-        'is_valid': lambda s: {'ok': schema.is_valid(s)},
-        'iter_errors': lambda s: {'ok': [err_key(e) for e in schema.iter_errors(s)]},
-        'validate': lambda s: {'ok': schema.validate(s)},
-        'pkg.is_valid': lambda s: {'ok': xmlschema.is_valid(s, schema, cls=cls)},
-        'pkg.iter_errors': lambda s: {'ok': [err_key(e) for e in xmlschema.iter_errors(s, schema, cls=cls)]},
-        'pkg.validate': lambda s: {'ok': xmlschema.validate(s, schema, cls=cls)},
+        'is_valid': lambda s: {'ok': schema.is_valid(s, **kw)},
+        'iter_errors': lambda s: {'ok': [err_key(e) for e in schema.iter_errors(s, **kw)]},
+        'validate': lambda s: {'ok': schema.validate(s, **kw)},
+        'pkg.is_valid': lambda s: {'ok': xmlschema.is_valid(s, schema, cls=cls, **kw)},
+        'pkg.iter_errors': lambda s: {'ok': [err_key(e) for e in xmlschema.iter_errors(s, schema, cls=cls, **kw)]},
+        'pkg.validate': lambda s: {'ok': xmlschema.validate(s, schema, cls=cls, **kw)},
     }
     for m in MODES:
-        eps['decode:' + m] = (lambda s, m=m: dec(schema.decode(s, validation=m), m))
-        eps['iter_decode:' + m] = (lambda s, m=m: gen_items(schema.iter_decode(s, validation=m)))
-        eps['pkg.to_dict:' + m] = (lambda s, m=m: dec(xmlschema.to_dict(s, schema, cls=cls, validation=m), m))
-        eps['pkg.iter_decode:' + m] = (lambda s, m=m: gen_items(xmlschema.iter_decode(s, schema, cls=cls, validation=m)))
+        eps['decode:' + m] = (lambda s, m=m: dec(schema.decode(s, validation=m, **kw), m))
+        eps['iter_decode:' + m] = (lambda s, m=m: gen_items(schema.iter_decode(s, validation=m, **kw)))
+        eps['pkg.to_dict:' + m] = (lambda s, m=m: dec(xmlschema.to_dict(s, schema, cls=cls, validation=m, **kw), m))
+        eps['pkg.iter_decode:' + m] = (lambda s, m=m: gen_items(xmlschema.iter_decode(s, schema, cls=cls, validation=m, **kw)))
     return eps
 
 
@@ -523,7 +527,7 @@ def canon_for(case: dict) -> Callable[[Any], Any]:
 
 
 def public_case(case: dict) -> dict:
-    return {k: case[k] for k in ('v', 'family', 'style', 'xml', 'faults', 'prefix_dependent') if k in case}
+    return {k: case[k] for k in ('v', 'family', 'style', 'xml', 'faults', 'prefix_dependent', 'path') if k in case}
 
 
 def run_case(env: Env, case: dict, kinds: list[str], reqs: Optional[list], pend: Optional[list]) -> None:
@@ -535,15 +539,17 @@ def run_case(env: Env, case: dict, kinds: list[str], reqs: Optional[list], pend:
     pc = public_case(case)
     env.n += 1
     src = Sources(case['xml'], env.tmp, 'doc%d' % env.n)
-    eps = entry_points(schema, canon)
+    path = case.get('path')
+    eps = entry_points(schema, canon, path)
     ids = Ids()
+    pkw: dict[str, Any] = {'path': path} if path else {}
 
     # 1. record the two lax scripts (text source)
     scripts = None
     try:
-        log_v = env.rec.record(lambda: schema.iter_errors(case['xml']))
+        log_v = env.rec.record(lambda: schema.iter_errors(case['xml'], **pkw))
         sv, an_v = build_script(log_v, ids, canon)
-        log_d = env.rec.record(lambda: schema.iter_decode(case['xml'], validation='lax'))
+        log_d = env.rec.record(lambda: schema.iter_decode(case['xml'], validation='lax', **pkw))
         sd, an_d = build_script(log_d, ids, canon)
         scripts = (sv, sd, an_v + an_d)
     except RecursionError:
@@ -586,8 +592,7 @@ def run_case(env: Env, case: dict, kinds: list[str], reqs: Optional[list], pend:
         yes = sorted('%s/%s' % k for k, v in verdicts.items() if v)
         no = sorted('%s/%s' % k for k, v in verdicts.items() if not v)
         minority = yes if len(yes) <= len(no) else no
-        only_refs = bool(ref) and all(k.split('|')[2].startswith('IDREF ') and 'not found in XML document' in k
-                                      for k in ref)
+        only_refs = bool(ref) and all(k in ids.ref_keys for k in ref)
         dissent_decode = all(re.search(r'/(pkg\.)?(decode|to_dict|iter_decode):', x) for x in yes) and \
             all(not re.search(r'/(pkg\.)?(decode|to_dict|iter_decode):', x) for x in no)
         report(ctx, 'entry points disagree on the verdict', pc,
@@ -642,8 +647,8 @@ def run_case(env: Env, case: dict, kinds: list[str], reqs: Optional[list], pend:
     # statistics
     invalid = bool(verdicts) and not all(verdicts.values())
     nerr = len(outs['text'].get('iter_errors', {}).get('ok', []) or []) if isinstance(outs['text'].get('iter_errors'), dict) else 0
-    ctx.case({'v': case['v'], 'family': case['family'], 'xml': case['xml']}, invalid or len(case['xml']) > 400,
-             tag='%s/%s' % (case['v'], case['family']))
+    ctx.case({'v': case['v'], 'family': case['family'], 'xml': case['xml'], 'path': path}, invalid or len(case['xml']) > 400,
+             tag='%s/%s%s' % (case['v'], case['family'], '/path' if path else ''))
     ctx.count('verdict:' + ('invalid' if invalid else 'valid'))
     ctx.count('errors:%s' % (nerr if nerr < 5 else '5+'))
     for f in case.get('faults', []):
@@ -659,7 +664,7 @@ def run_case(env: Env, case: dict, kinds: list[str], reqs: Optional[list], pend:
         pend.append(('api', pc, ids, outs, kinds))
 
     # 5. component level (ValidationMixin) on an lxml element (keeps the prefix map)
-    if case['family'] in 'TN' and not any(f.startswith('ROOT') or f.startswith('ID ') for f in case.get('faults', [])):
+    if not path and not any(f.startswith('ROOT') or f.startswith('ID ') for f in case.get('faults', [])):
         component_case(env, case, schema, canon, reqs, pend)
 
 
@@ -817,7 +822,7 @@ def compare(ctx: Ctx, reqs: list, pend: list, drv: Driver) -> None:
                 ek = {v: k for k, v in ids.err.items()}
                 extra_v = [ek[x] for x in ans['ev_v'] if x not in ans['ev_d']]
                 extra_d = [ek[x] for x in ans['ev_d'] if x not in ans['ev_v']]
-                only_refs = not extra_d and all('|IDREF ' in k and 'not found in XML document' in k for k in extra_v) \
+                only_refs = not extra_d and all(k in ids.ref_keys for k in extra_v) \
                     and [x for x in ans['ev_v'] if x in ans['ev_d']] == ans['ev_d']
                 if only_refs and any(e['id'] == 'C04-F2' and e.get('status') == 'known' for e in ctx.known):
                     ctx.known_hit('C04-F2')
@@ -963,10 +968,18 @@ def gen_cases(ctx: Ctx, n: int) -> list[dict]:
         cases.append(c)
     for c in cases:
         c.pop('tree', None)
-    return cases
+    # path variant (several selected elements => several collect/flush/result cycles, list-shaped results)
+    extra = []
+    for c in cases:
+        # (identity constraints and ID/IDREF are checked differently under a path argument: outside the property)
+        if c['family'] == 'T' and not any(f.startswith(('ROOT', 'C08', 'ID ')) for f in c['faults']) and ctx.rng.random() < 0.25:
+            extra.append(dict(c, path=ctx.rng.choice(['p:item', '/p:root/p:item', 'p:head', 'p:sub', 'p:nothing'])))
+    return cases + extra
 
 
 def kinds_for(case: dict) -> list[str]:
+    if case.get('path'):
+        return ['text', 'path', 'lxml']        # prefixed path expressions need the document's prefix map
     return [k for k in SOURCE_KINDS if not (case['prefix_dependent'] and k in ET_KINDS)]
 
 
